@@ -1,6 +1,7 @@
 (* Property C19 (partial): signature printing/parsing.  Statements closed by `exact`, each with Print Assumptions. *)
 From Coq Require Import List String Bool.
-From C19 Require Import Sig SigProofs Imports ImportsProofs Ann AnnProofs AnnImports.
+From C19 Require Import Sig SigProofs Imports ImportsProofs Ann AnnProofs AnnImports Defaults DefaultsProofs Strs Emit EmitProofs.
+From Gen Require Import StubPreds.
 Import ListNotations.
 Open Scope string_scope.
 
@@ -85,6 +86,71 @@ Example ann_example :
              [UName "Callable" RPlain [UList [UName "int" RPlain []]; UName "Union" RUnion [UName "A" RPlain []; UName "B" RPlain []]]]] in
   wf_ty t = true /\ render_ann (print_ty t) = "dict[str, Callable[[int], A | B] | None]".
 Proof. vm_compute. split; reflexivity. Qed.
+
+(* ---- default values (get_str_default_of_node + the 200-character rule) *)
+(* when the rendered default is not `...` it parses back to the source expression itself, hence has the source's value
+   under any evaluator; for every expression whose float literals are finite *)
+Theorem default_faithful : forall e ts, finite e = true -> rend e = Some ts ->
+  parse_default ts = Some e /\ forall (V : Type) (ev : dexpr -> V) p, parse_default ts = Some p -> ev p = ev e.
+Proof. exact default_faithful_holds. Qed.
+Print Assumptions default_faithful.
+
+(* what ends up in the stub (literal or `...`) is an expression with no free identifier besides True/False/None *)
+Theorem default_is_valid_expr_and_closed_partial : forall len e, finite e = true ->
+  exists p, parse_default (default_tokens len e) = Some p /\ closed p = true.
+Proof. exact default_closed_holds. Qed.
+Print Assumptions default_is_valid_expr_and_closed_partial.
+
+(* a float literal that overflows (1e999) is rendered as the identifier `inf`: valid syntax, free identifier *)
+Theorem default_is_valid_expr_and_closed_refuted : exists e, forall len,
+  len [XId "inf"] <= 200 ->
+  default_tokens len e = [XId "inf"] /\ parse_default (default_tokens len e) = Some (DName "inf") /\ closed (DName "inf") = false.
+Proof.
+  exists (DFloat FInf). intros len H. unfold default_tokens. simpl. apply PeanoNat.Nat.leb_le in H. rewrite H. repeat split.
+Qed.
+Print Assumptions default_is_valid_expr_and_closed_refuted.
+
+(* ---- which definitions are emitted (predicates regenerated from the source: gen/StubPreds.v) *)
+(* every public function, class and annotated variable of the module, and recursively every public member of every
+   class, is bound in the stub — for any module of the modelled language, any __all__, with or without --include-private *)
+Theorem public_members_preserved : forall c l, all_covered c true l (emit_module c l).
+Proof. exact public_members_preserved_holds. Qed.
+Print Assumptions public_members_preserved.
+
+(* F-C: alternative class definitions under if/else are both emitted (functions are not: _toplevel_names) *)
+Theorem definitions_unique_refuted : exists c l,
+  count_name "X" (emit_module c l) = 2 /\ count_name "f" (emit_module c l) = 1.
+Proof.
+  exists (mkCfg false None), [IIf [IClass "X" [] []] [IClass "X" [] []]; IIf [IFunc "f" [] []] [IFunc "f" [] []]].
+  vm_compute. split; reflexivity.
+Qed.
+Print Assumptions definitions_unique_refuted.
+
+(* F-M and F-F: with __all__, a definition that is filtered out is still referred to by what is emitted:
+   `Bl: typing.TypeAlias = list[int]` (kept when spelled `Cl: TypeAlias = ...`) and a decorator `dc` *)
+Theorem references_defined_refuted : exists c l env,
+  refs_defined env (emit_module c l) = false /\
+  map oname (emit_module c l) = ["Cl"; "fa"; "de"] /\
+  public c true "Bl" = false /\ public c true "dc" = false.
+Proof.
+  exists (mkCfg false (Some ["fa"; "de"])),
+         [IVar "Bl" true VAliasQualified ["list"]; IVar "Cl" true VAliasExplicit ["list"]; IFunc "fa" [] ["Bl"; "Cl"];
+          IFunc "dc" [] []; IFunc "de" [mkDeco "dc" true false] []],
+         ["list"].
+  vm_compute. repeat split; reflexivity.
+Qed.
+Print Assumptions references_defined_refuted.
+
+Example emit_example :
+  emit_module (mkCfg false None)
+    [IClass "C" [] [IFunc "__init__" [] []; IFunc "_p" [] []; IFunc "__str__" [] []; IVar "__slots__" false VPlain [];
+                    IOverloaded "m" [([mkDeco "overload" true true], []); ([mkDeco "overload" true true], []); ([], [])];
+                    IOverloaded "p" [([mkDeco "property" true false], []); ([mkDeco "p" true false], [])]];
+     IVar "_v" true VPlain []; IVar "v" true VPlain []]
+  = [OClass "C" [] [OFunc "__init__" [] []; OFunc "m" ["overload"] []; OFunc "m" ["overload"] [];
+                    OFunc "p" ["property"] []; OFunc "p" ["p"] []];
+     OVar "v" []].
+Proof. vm_compute. reflexivity. Qed.
 
 (* non-vacuity *)
 Example hyps_satisfiable :
